@@ -3,4 +3,6 @@ sys.path.insert(0, '/verif/.deps'); sys.path.insert(0, '/verif')
 from pyvc.engine import find_function
 from pyvc import loops as L
 fn, _ = find_function(sys.argv[1], sys.argv[2])
-for node, o in sorted(L.loop_ordinals(fn).items(), key=lambda x: x[1]): print(o, node.lineno, type(node).__name__)
+import ast
+for n in ast.walk(fn):
+    if id(n) in L.loop_ordinals(fn): print(L.loop_ordinals(fn)[id(n)], n.lineno, type(n).__name__)
